@@ -23,6 +23,8 @@ const (
 	nonceOpt6 = 65001 // unassigned DHCPv6 option code carrying the harness nonce
 	tailOpt4  = 226   // trailer option: nonce-determined payload behind the nonce option, so that a datagram
 	tailOpt6  = 65003 // that reached a caller cut short or overwritten is recognised (Resp.Damaged)
+	fillOpt4  = 228   // filler that brings a datagram to an exact size
+	fillOpt6  = 65005
 )
 
 // Req is a request message of either family.
@@ -30,6 +32,23 @@ type Req struct {
 	V4  *dhcpv4.DHCPv4
 	V6  *dhcpv6.Message
 	Xid uint32
+}
+
+// Edit changes the request IN PLACE (same message object): new transaction id, and an option whose value tells the
+// edits apart.  A caller may well keep one message object and re-submit it after changing it.
+func (r *Req) Edit(xid uint32, mark byte) {
+	if r.V4 != nil {
+		r.V4.TransactionID = xid4(xid)
+		r.V4.UpdateOption(dhcpv4.OptGeneric(dhcpv4.GenericOptionCode(227), []byte{mark, mark ^ 0xff}))
+		r.V4.NumSeconds = uint16(mark)
+	} else {
+		r.V6.TransactionID = xid6(xid)
+		r.V6.UpdateOption(&dhcpv6.OptionGeneric{OptionCode: 65004, OptionData: []byte{mark, mark ^ 0xff}})
+	}
+	r.Xid = xid & 0xffffff
+	if r.V4 != nil {
+		r.Xid = xid
+	}
 }
 
 func (r Req) Bytes() []byte {
@@ -205,6 +224,20 @@ func (V4) Datagram(class string, xid uint32, nonce int, msgType int) []byte {
 	case "empty":
 		return []byte{}
 	}
+	if nonce%9 == 4 || nonce%9 == 7 { // exactly the maximum message size the client announces (1500 octets), and one less
+		target := 1500 - (nonce%9-4)/3
+		for v := 1150; v < 1270; v++ {
+			fill := make([]byte, v)
+			for i := range fill {
+				fill[i] = byte(nonce+i) | 1
+			}
+			p.UpdateOption(dhcpv4.OptGeneric(dhcpv4.GenericOptionCode(fillOpt4), fill))
+			if len(p.ToBytes()) == target {
+				break
+			}
+			p.Options.Del(dhcpv4.GenericOptionCode(fillOpt4))
+		}
+	}
 	return p.ToBytes()
 }
 
@@ -316,6 +349,16 @@ func (V6) Datagram(class string, xid uint32, nonce int, msgType int) []byte {
 		return b[:len(b)-2]
 	case "empty":
 		return []byte{}
+	}
+	if nonce%9 == 4 || nonce%9 == 7 { // as large as the client's receive buffer (1500 octets), and one less
+		target := 1500 - (nonce%9-4)/3
+		if n := target - len(m.ToBytes()) - 4; n >= 0 {
+			fill := make([]byte, n)
+			for i := range fill {
+				fill[i] = byte(nonce+i) | 1
+			}
+			m.AddOption(&dhcpv6.OptionGeneric{OptionCode: fillOpt6, OptionData: fill})
+		}
 	}
 	return m.ToBytes()
 }
